@@ -872,7 +872,7 @@ def oracle_c13(tables, seed, tier, deep):
     extra = ["Ünï", "中文", "\U0001F600", "a" * 300, "user.address.zip", "a..b", ".", "$a.$b", "$$x", "system.users", "$cmd", "db.$cmd"]
     for _ in range(3000 if big else 400):
         extra.append("".join(rng.choice("abcXYZ019_.$-é") for _ in range(1 + rng.below(14))))
-    repls = ["REDACTED", "", "r.x_y", "é \"q\""]
+    repls = ["REDACTED", "", "r.x_y", "é \"q\"", "50%", "%s", "p%d%%", "%!x(MISSING)"]
     ops = [("n%d" % i, ["hash", Cfg().s(), "s" + hx(n)]) for i, n in enumerate(names)]
     for j, rp in enumerate(repls):
         ops += [("e%d.%d" % (j, i), ["hash", Cfg(repl=rp).s(), "s" + hx(n)]) for i, n in enumerate(extra)]
@@ -949,7 +949,7 @@ def oracle_c13_visible(tables, seed, tier, deep):
     names = ["orders", "REDACTED_x", "REDACTED_", "REDACTED_ca978112ca1bbdca", "archive_2024", "X_y", "X_", "r.x_y_z", "a", "products", "shipments", "audit_log", "Ünï", "$cmd"]
     for _ in range(60 if (tier == "thorough" or deep) else 20):
         names.append("".join(rng.choice("abcdefXYZ019_-") for _ in range(1 + rng.below(10))))
-    repls = ["REDACTED", "X", "archive", "r.x_y"]
+    repls = ["REDACTED", "X", "archive", "r.x_y", "50%", "%v%s"]
     pairs = []
     for i, nm in enumerate(names):
         for rp in repls:
@@ -2267,7 +2267,25 @@ def oracle_c15(tables, seed, tier, deep):
                 for f in m.group(2).split(",")) + m.group(3), ps)
             if got != exp:
                 viol.append({"site": "fn:planSummary", "detail": "plan summary %r -> %r, expected %r" % (ps, got, exp), "cfg": c1.s(), "cli_flags": c1.cli(), "input": cs.text, "output": ta})
-    return result(viol, 3 * len(pairs_on), names_checked, "grammar lines run with a --redactFieldNames path that prefixes attr.ns, without the flag, and with paths that do not prefix it; planted field names must be absent from the whole line; flag-on vs flag-off tree comparison (renamed keys = independent pseudonym, sibling count/order, values, '$field' references); plan summary against an independent rewrite; distinct_nontrivial = field names checked",
+    # a user field whose name coincides with a BARE (non-'$') key of the core operator table is taken for an operator by the
+    # query walker and keeps its name: one case per bare key of the REGENERATED table (today: if / then / else, recorded)
+    bare = [k for k, _ in tables["CoreOperators"]["map"] if not k.startswith("$")]
+    bcases = []
+    for k in bare:
+        line = Obj([("c", "COMMAND"), ("msg", "Slow query"), ("attr", Obj([("ns", "shop.c"), ("command", Obj([("find", "c"), ("filter", Obj([(k, "zqv1xs"), ("zq2xf", Obj([(k, Num("5"))]))])),
+                                                                                                               ("sort", Obj([(k, Num("1"))])), ("$db", "shop")]))]))])
+        bcases.append((Case(line), Cfg(eager=("shop",)), k))
+    for (cs, c, k), r in zip(bcases, run_lines([(cs, c) for cs, c, _ in bcases])):
+        t = out_text(r)
+        names_checked += 1
+        if t is None:
+            continue
+        o = parse_json(t)
+        filt = get_path(o, ("attr", "command", "filter"))
+        if isinstance(filt, Obj) and k in filt.keys():
+            viol.append({"site": "fn:bare-operator-key:" + k, "detail": "a user field named %r (a bare key of the core operator table) keeps its name under --redactFieldNames" % k,
+                         "cfg": c.s(), "cli_flags": c.cli(), "input": cs.text, "output": t})
+    return result(viol, 3 * len(pairs_on) + len(bcases), names_checked, "grammar lines run with a --redactFieldNames path that prefixes attr.ns, without the flag, and with paths that do not prefix it; planted field names must be absent from the whole line; flag-on vs flag-off tree comparison (renamed keys = independent pseudonym, sibling count/order, values, '$field' references); plan summary against an independent rewrite; distinct_nontrivial = field names checked",
                   dist, [pairs_on[0][0].text[:300]] if pairs_on else [])
 
 
@@ -2512,7 +2530,8 @@ def oracle_c16(tables, seed, tier, deep):
         flagsets = [[], ["--redactNumbers", "--redactIPs"], ["--redactNamespaces", "--replacement", "X"]] if big else [[], ["--redactNumbers", "--redactIPs", "--redactNamespaces"]]
         for hs, plains in atlas_scenarios(rng, big):
             for fi, flags in enumerate(flagsets):
-                for dates in ([None, (1700000000, 1700003600)] if (big or fi == 0) else [None]):
+                future = (int(time.time()) - 3600, int(time.time()) + 86400)     # a window that runs past the present
+                for dates in ([None, (1700000000, 1700003600), future, (1, 2)] if (big or fi == 0) else [None, future]):
                     payloads = [fakeatlas.gz(p, members=(1 if i % 2 == 0 else 3)) for i, p in enumerate(plains)]
                     sc = fakeatlas.Scenario(hs, payloads)
                     r = run_atlas(sc, work, flags=flags, dates=dates, key_via=("env" if fi % 2 else "flag"))
@@ -2607,7 +2626,7 @@ def oracle_c16(tables, seed, tier, deep):
                   dist, [{"hosts": 3}])
 
 
-ATLAS_FAULTS = ["enc-badkey", "enc-shortkey", "enc-key-unwritable", "enc-key-is-dir", "cluster-http500", "cluster-reset", "cluster-http401", "host-http500", "host-http403", "host-http404", "host-reset", "host-cut0", "host-cut", "not-gzip", "long-line", "out-blocked", "srv", "none"]
+ATLAS_FAULTS = ["enc-badkey", "enc-shortkey", "enc-key-unwritable", "enc-key-is-dir", "cluster-http500", "cluster-reset", "cluster-http401", "host-http500", "host-http403", "host-http404", "host-reset", "host-cut0", "host-cut", "host-empty200", "not-gzip", "long-line", "out-blocked", "srv", "none"]
 
 
 def oracle_c17(tables, seed, tier, deep):
@@ -2622,6 +2641,8 @@ def oracle_c17(tables, seed, tier, deep):
             hs = ["h%d.example.net:27017" % i for i in range(nh)]
             for fault in ATLAS_FAULTS:
                 ks = range(nh) if (fault.startswith("host-") or fault in ("not-gzip", "long-line", "out-blocked")) else [0]
+                if fault == "host-empty200" and nh >= 3 and not big:
+                    ks = [0, 1]
                 for k in ks:
                     plains = [atlas_payload(rng, i, 5) for i in range(nh)]
                     payloads = [fakeatlas.gz(p) for p in plains]
@@ -2640,6 +2661,8 @@ def oracle_c17(tables, seed, tier, deep):
                         faults[k] = ("cut", 0)
                     elif fault == "host-cut":
                         faults[k] = ("cut", max(1, len(payloads[k]) // 2))
+                    elif fault == "host-empty200":
+                        payloads[k] = b""          # HTTP 200 with a complete, empty body
                     elif fault == "not-gzip":
                         payloads[k] = b"this is not gzip data\n" * 10
                     elif fault == "long-line":
